@@ -132,7 +132,10 @@ func ruleSendDump(c *Check, rule, ruleTime, ruleOrder string) {
 	badOrder, nOrder := 0, 0
 	// captured variables by role
 	parent := c.P.Func(fnSendOnce)
-	stcF := "*free:" + freeInitSuffix(parent, fn, ".SchemaTracksChanges")
+	stcF := freeCanon(c.P, fn, freeInitSuffix(parent, fn, ".SchemaTracksChanges"))
+	if stcF == "" {
+		stcF = "*free:"
+	}
 	msgF := "*free:" + freeOfType(fn, func(t types.Type) bool { return namedIs(t, "snapshot.Snapshot") })
 	tsName := ""
 	if parent != nil {
